@@ -35,7 +35,10 @@ ASSUMPTIONS = ["all text is printable ASCII",
                "blanks only; a failing name-less record is tagged C03-nameless-locus when it fails in the LOCUS line / locus fields only (with the LOCUS "
                "line of the same record under a placeholder name in its place the strict reader returns the record; Parse(Build(x)) agrees outside the "
                "locus). A difference anywhere else is an ordinary FAIL. On a tagged case the writer's bytes are not compared with the model's (the model "
-               "mirrors the defect, which the property does not demand; name-less: only the LOCUS line may differ)",
+               "mirrors the defect, which the property does not demand). If a reply on an input of either class PASSES (the recorded defect was repaired) and "
+               "differs from the model, the case is drift: judge = skip, class suffix /kf-repaired — the model's bytes for a class input are not the standard, "
+               "the property is. For a name-less record 'passes' means: Parse(Build(x)) returns the record (empty name) and the independent reader recovers "
+               "everything the record has, under whatever name the LOCUS line carries (no line can carry an empty name: nameless_class_fails)",
                "layout domain: an extra keyword has at most 11 letters and a feature key at most 15 (the layout sets a key off from what follows by a blank; "
                "Build glues a longer one to its text, and Parse(Build(x)) already fails there); a feature without cached text carries a structure that is a "
                "location (wfLoc: no Join node without operands, no span on a node with operands) — for anything else the property demands nothing of the "
